@@ -8,6 +8,7 @@ fn now_ms() -> u64 { std::time::SystemTime::now().duration_since(std::time::UNIX
 pub fn start() {
     let limit_ms = std::env::var("VERIF_HANG_S").ok().and_then(|s| s.parse::<u64>().ok()).unwrap_or(30) * 1000;
     SINCE_MS.store(now_ms(), Ordering::SeqCst);
+    if limit_ms == 0 { return; }      // VERIF_HANG_S=0: no watchdog thread (under miri a detached thread alive at exit is an error)
     std::thread::spawn(move || loop {
         std::thread::sleep(std::time::Duration::from_millis(200));
         let cur = CUR.load(Ordering::SeqCst);
